@@ -25,7 +25,10 @@ Returns a JSON-able dict, or {"error": ...}."""
 import re
 from fractions import Fraction
 
-NUM = r"(?:_Q\(-?\d+,\d+\)|-?\d+/\d+|-?\d+(?:\.\d+)?(?:e[-+]?\d+)?)"
+FLT = r"-?\d+(?:\.\d+)?(?:e[-+]?\d+)?"
+REAL = r"(?:_Q\(-?\d+,\d+\)|-?\d+/\d+|True|False|%s)" % FLT
+CPLX = r"(?:_C4\(-?\d+,\d+,-?\d+,\d+\)|%sj|\(%s[-+]\d+(?:\.\d+)?(?:e[-+]?\d+)?j\))" % (FLT, FLT)
+NUM = r"(?:%s|%s)" % (CPLX, REAL)
 TERM = r"(?:-?d\d+|\(%s\) \* d\d+|-?m\d+|-\(%s\) \* m\d+)" % (NUM, NUM)
 SUM = r"%s(?: \+ %s)*" % (TERM, TERM)
 
@@ -34,7 +37,29 @@ class ParseError(Exception):
   pass
 
 
+COMPLEX_OK = [False]    # set by parse_program(text, complex_ok=True): numbers become [[re], [im]] pairs
+
+
 def num(t):
+  if re.fullmatch(CPLX, t):
+    if not COMPLEX_OK[0]:
+      raise ParseError("complex literal %r" % t)
+    m = re.fullmatch(r"_C4\((-?\d+),(\d+),(-?\d+),(\d+)\)", t)
+    if m:
+      if int(m.group(2)) == 0 or int(m.group(4)) == 0:
+        raise ParseError("zero denominator")
+      re_, im_ = Fraction(int(m.group(1)), int(m.group(2))), Fraction(int(m.group(3)), int(m.group(4)))
+    else:
+      c = complex(t)                       # what CPython computes for the literal
+      re_, im_ = Fraction(c.real), Fraction(c.imag)
+    return [[re_.numerator, re_.denominator], [im_.numerator, im_.denominator]]
+  r = real_num(t)
+  return [r, [0, 1]] if COMPLEX_OK[0] else r
+
+
+def real_num(t):
+  if t in ("True", "False"):
+    return [int(t == "True"), 1]
   m = re.fullmatch(r"_Q\((-?\d+),(\d+)\)", t)
   if m:
     if int(m.group(2)) == 0:
@@ -86,11 +111,14 @@ def expr(t):
   raise ParseError("expression %r" % t)
 
 
-def parse_program(text):
+def parse_program(text, complex_ok=False):
+  COMPLEX_OK[0] = complex_ok
   try:
     return _parse(text)
-  except ParseError as e:
+  except (ParseError, ValueError, OverflowError) as e:
     return {"error": str(e)[:200]}
+  finally:
+    COMPLEX_OK[0] = False
 
 
 def _parse(text):
